@@ -40,7 +40,8 @@ fn body_ops(rng: &mut StdRng, allow_reset: bool) -> (Vec<SendOp>, bool) {
             }
             _ => {
                 ops.push(SendOp::Reserve { n: sz });
-                ops.push(SendOp::PollCap);
+                // nothing requested => poll_capacity has nothing to wait for (it would park for ever, as documented): poll it once only
+                ops.push(if sz == 0 { SendOp::PollCapOnce } else { SendOp::PollCap });
                 ops.push(SendOp::Reserve { n: sz / 2 });
                 ops.push(SendOp::Data { n: sz / 2, eos });
             }
@@ -308,6 +309,7 @@ pub fn by_family(fam: &str, seed: u64) -> Scenario {
         "wuBurstBs" => wu_burst_bs(seed),
         "mutateB" => mutate_b(seed),
         "rstRaceBc" => rst_race_bc(seed),
+        "pushRaceBs" => push_race_bs(seed),
         _ => mix_a(seed, false),
     }
 }
@@ -1671,5 +1673,75 @@ pub fn rst_race_bc(seed: u64) -> Scenario {
     }
     s.peer = steps;
     s.drop_sr_when_done = true;
+    s
+}
+
+// ---------------------------------------------------------------------------
+// Mode Bs, server pushes against a scripted client that refuses / credits the promised streams (RST_STREAM, WINDOW_UPDATE
+// on a reserved stream: both legal, RFC 9113 5.1) exactly while the application starts to answer them - optionally with a
+// small SETTINGS_MAX_CONCURRENT_STREAMS of the client, so that answered pushes wait in the open queue for a long time.
+// Aims: C09 (legal frames on a reserved stream are not penalised), C04/C05 (pushes respect the peer's limit), C19.
+pub fn push_race_bs(seed: u64) -> Scenario {
+    let mut rng = StdRng::seed_from_u64(seed ^ 0x9054_ACE);
+    let mut s = Scenario::default();
+    s.name = format!("pushRaceBs-{}", seed);
+    s.mode = "Bs".into();
+    s.sched.seed = seed;
+    s.aims = vec!["C09".into()];
+    s.peer_cfg.ack_settings = true;
+    s.peer_cfg.ack_ping = true;
+    s.peer_cfg.grant = "all".into();
+    s.peer_cfg.settings = match rng.gen_range(0..4) {
+        0 => vec![(3, 0)],
+        1 => vec![(3, 1)],
+        _ => vec![],
+    };
+    let npush = rng.gen_range(1..4u32);
+    let mut ops = vec![];
+    for i in 0..npush {
+        let kq = rng.gen_range(2..7);
+        let eos = rng.gen_bool(0.3);
+        let mut pops = vec![SendOp::WaitQ { k: kq }, SendOp::Response { status: 200, hid: small_hid(&mut rng), eos }];
+        if !eos {
+            pops.push(SendOp::Data { n: pick(&mut rng, &[0usize, 5, 3000]), eos: true });
+        }
+        ops.push(SendOp::Push { tag: 100 + i, hid: small_hid(&mut rng), ops: pops });
+    }
+    ops.push(SendOp::WaitQ { k: rng.gen_range(2..8) });
+    ops.push(SendOp::Response { status: 200, hid: 0, eos: true });
+    s.srv.push(SrvProg { ops, read: ReadPol::default(), note: String::new() });
+    let mut steps = vec![PeerStep::WaitQ];
+    steps.push(PeerStep::Headers { sid: 1, hid: 0, fields: vec![], eos: true, frag: 0, huff: false, status: 0, req: true, method: "GET".into(), tag: 1 });
+    // what the client does to each promised stream, and after how many quiescences
+    let mut acts: Vec<(usize, PeerStep)> = vec![];
+    for i in 0..npush {
+        let sid = 2 + 2 * i;
+        let at = rng.gen_range(2..8);
+        match rng.gen_range(0..5) {
+            0 | 1 => acts.push((at, PeerStep::Rst { sid, code: pick(&mut rng, &[8u32, 7, 0]) })),
+            2 => acts.push((at, PeerStep::Wu { sid, inc: pick(&mut rng, &[1u32, 1000, 65535]) })),
+            3 => {
+                acts.push((at, PeerStep::Wu { sid, inc: 10 }));
+                acts.push((at + rng.gen_range(0..2), PeerStep::Rst { sid, code: 8 }));
+            }
+            _ => {}
+        }
+    }
+    for q in 2..10 {
+        steps.push(PeerStep::WaitQ);
+        for (at, st) in acts.iter() {
+            if *at == q {
+                steps.push(st.clone());
+            }
+        }
+        if q == 6 && rng.gen_bool(0.5) {
+            // the client raises its limit late: everything still queued may go out
+            steps.push(PeerStep::Settings { vals: vec![(3, 100)] });
+        }
+    }
+    for _ in 0..4 {
+        steps.push(PeerStep::WaitQ);
+    }
+    s.peer = steps;
     s
 }
